@@ -589,6 +589,10 @@ fn family_prop(ctx: &RunCtx, fams: &[&str]) -> i32 {
     let e2e = fams.contains(&"e2e");
     let k = fams.len() as u64;
     let agg = run_parallel(prop, n, &ctx.known, |i| {
+        if prop == "C07" && i == 0 {
+            // the documented 10-second default for a request that omits its deadline
+            return crate::codec::c15_kinds_and_optionals();
+        }
         if prop == "C14" && i < 40 {
             // conformance self-test of the instrumented transport itself
             let model = if i % 2 == 0 { Model::Coupled } else { Model::Independent };
@@ -904,7 +908,7 @@ fn server_required_cells(prop: &str) -> Vec<String> {
 fn c09(ctx: &RunCtx) -> i32 {
     let prop = ctx.prop;
     let seed = ctx.seed;
-    let nbase = ctx.n(10, 150);
+    let nbase = ctx.n(10, 1500);
     let schedules = if ctx.thorough() { 3 } else { 1 };
     // 1) fault-free base runs count the calls of every transport operation
     // job = (is_server, base index, fault)
@@ -1069,7 +1073,7 @@ fn c13_decode(mut idx: u64, maxlen: u32) -> Option<(u32, Vec<L>)> {
 }
 
 fn c13(ctx: &RunCtx) -> i32 {
-    let maxlen: u32 = if ctx.thorough() { 9 } else { 7 };
+    let maxlen: u32 = if ctx.thorough() { 10 } else { 7 };
     let exhaustive: u64 = 2 * (1..=maxlen).map(|l| 5u64.pow(l)).sum::<u64>();
     let random = ctx.n(60_000, 3_000_000);
     let seed = ctx.seed;
@@ -1119,7 +1123,7 @@ fn c13(ctx: &RunCtx) -> i32 {
 fn c19(ctx: &RunCtx) -> i32 {
     let depth: u32 = if ctx.thorough() { 5 } else { 4 };
     let exhaustive: u64 = 22u64.pow(depth) * 2;
-    let random = ctx.n(60_000, 3_000_000);
+    let random = ctx.n(60_000, 10_000_000);
     let seed = ctx.seed;
     let agg = run_parallel(ctx.prop, exhaustive + random, &ctx.known, |i| {
         let mut next_id = 0u32;
@@ -1316,7 +1320,7 @@ pub fn e2e_cfg(prop: &str, i: u64, base_seed: u64) -> ECfg {
 fn e2e_required_cells(prop: &str) -> Vec<String> {
     let v: Vec<&str> = match prop {
         "C04" => vec!["C04.chain.head-abandoned", "C04.chain.cascade-depth2", "C04.chain.cascade-depth3"],
-        "C07" => vec!["C07.hop1.serde", "C07.hop2.serde", "C07.hop3.serde", "C07.hop1.in-memory", "C07.hop3.in-memory", "C07.expired-on-send", "C07.real-transit-delay"],
+        "C07" => vec!["C15.request-without-deadline", "C07.hop1.serde", "C07.hop2.serde", "C07.hop3.serde", "C07.hop1.in-memory", "C07.hop3.in-memory", "C07.expired-on-send", "C07.real-transit-delay"],
         "C18" => vec!["C18.cancel-observed", "e2e.depth3", "C18.otel-subscriber"],
         _ => vec![],
     };
